@@ -52,15 +52,20 @@ int vsnprintf(char*, uint64_t, const char*, va_list);
 int vfscanf(void*, const char*, va_list);
 #define FOREIGN(f, expr) do { if ((uint8_t*)(f) != hfile_) return (expr); } while (0)
 #else
-#define FOREIGN(f, expr) ASSERT((uint8_t*)(f) == hfile_, "stream function called on the harness file handle")
+#define FOREIGN(f, expr) do { if ((uint8_t*)(f) != hfile_) ASSERT(0, "stream function called on a FILE* that is not the harness file"); } while (0)
 #endif
 
 uint64_t STUB(fread)(uint8_t* p, uint64_t size, uint64_t n, uint8_t* f) {
   FOREIGN(f, fread_unlocked(p, size, n, f));
   ASSERT(size == 1, "file model: item size 1");
-  uint64_t avail = fpos_ < flen_ ? flen_ - fpos_ : 0, got = n < avail ? n : avail;
-  for (uint64_t i = 0; i < got; i++) p[i] = file_[fpos_ + i];
-  fpos_ += got;
+  /* The cursor is kept as "bytes requested so far" (it may run past flen_; every reader treats a cursor >= flen_ as end of
+   * file), so that it stays a concrete number on the no-short-read path whatever the symbolic file length is. */
+  /* Deviation, stated: on a short read the unread tail of the caller's buffer (still inside the size*n bytes the caller
+   * passed) receives the array's stale bytes instead of being left alone.  freadx() throws on every short read, so the tail
+   * is never looked at; keeping the copy unconditional keeps header bytes concrete for the solver whatever flen_ is. */
+  uint64_t got = 0;
+  for (uint64_t i = 0; i < n; i++) { if (fpos_ + i < FCAP) p[i] = file_[fpos_ + i]; if (fpos_ + i < flen_) got++; }
+  fpos_ += n;
   if (got < n) feof_ = 1;
   return got;
 }
@@ -93,6 +98,7 @@ uint32_t STUB(fileno)(uint8_t* f) { FOREIGN(f, (uint32_t)fileno_unlocked(f)); re
 uint32_t STUB(fseek)(uint8_t* f, uint64_t off, uint32_t whence) {
   FOREIGN(f, (uint32_t)fseeko(f, (long)off, (int)whence));
   ASSERT(whence == 0 || whence == 1, "file model: SEEK_SET / SEEK_CUR only");
+  ASSERT(whence == 0 || (int64_t)off >= 0, "file model: relative seeks are forward (cursor may already be past the end)");
   int64_t np = (int64_t)off + (whence == 1 ? (int64_t)fpos_ : 0);
   if (np < 0) return (uint32_t)-1;
   fpos_ = (uint64_t)np; feof_ = 0;
@@ -143,7 +149,7 @@ uint32_t STUB(snprintf)(uint8_t* buf, uint64_t cap, uint8_t* fmt, ...) {
 #ifndef VERIF_NATIVE_REAL
 /* phosg::string_printf is cut out of the generated C (it only builds exception messages from decimal conversions, which
  * the vasprintf model does not cover): it returns an empty std::string (SSO layout: pointer to the local buffer, size 0). */
-void STUB(_ZN5phosg13string_printfEPKcz)(uint8_t* sret, uint8_t* fmt, ...) {
+void STUB(_ZN5phosg13string_printfB5cxx11EPKcz)(uint8_t* sret, uint8_t* fmt, ...) {
   (void)fmt;
   *(uint8_t**)sret = sret + 16;
   *(uint64_t*)(sret + 8) = 0;
